@@ -11,6 +11,7 @@
 #include <yaclib/coro/yield.hpp>
 #include <yaclib/runtime/fair_thread_pool.hpp>
 
+#include <mutex>
 #include <vector>
 #include <yaclib_std/thread>
 
@@ -34,6 +35,7 @@ struct Round {
   int form = 0;
   bool explicit_unlock = false;  // guards: UnlockHere() instead of destruction
   bool yield_in_cs = false;
+  int guard_origin = 0;  // guards: 0 m.Guard*()/TryGuard*(), 1 deferred guard then g.Lock()/g.TryLock(), 2 adopt_lock after m.Lock*()
   int gap = 0;
   std::uint64_t invoke = 0, granted = 0, released = 0;
   bool try_failed = false;
@@ -73,6 +75,7 @@ class Case final : public sim::CaseBase {
         rd.explicit_unlock = g.Flip();
         rd.yield_in_cs = g.Flip();
         rd.gap = static_cast<int>(g.Draw(3));
+        rd.guard_origin = IsGuard(f) ? static_cast<int>(g.Draw(3)) : 0;
         rs.push_back(rd);
       }
       rounds.push_back(rs);
@@ -88,7 +91,8 @@ class Case final : public sim::CaseBase {
       for (auto& r : rs) {
         j.Obj().KV("request", kFormNames[r.form]);
         if (IsGuard(r.form)) {
-          j.KV("release", r.explicit_unlock ? "UnlockHere()" : "guard destruction");
+          static const char* origins[] = {"mutex.Guard*()/TryGuard*()", "guard{m, defer_lock} then guard.Lock()/TryLock()", "guard{m, adopt_lock} after m.Lock*() (try forms: as 0)"};
+          j.KV("release", r.explicit_unlock ? "UnlockHere()" : "guard destruction").KV("guard_made_by", origins[r.guard_origin]);
         }
         j.KV("yield_inside", r.yield_in_cs).End();
       }
@@ -291,7 +295,20 @@ yaclib::Future<> Worker(Case* c, M* m, int w, yaclib::IExecutor* e) {
         break;
       case kGuard:
       case kTryGuard: {
-        auto g = r.form == kGuard ? co_await m->Guard() : m->TryGuard();
+        yaclib::UniqueGuard<M> g;
+        if (r.guard_origin == 1) {
+          g = yaclib::UniqueGuard<M>{*m, std::defer_lock};
+          if (r.form == kGuard) {
+            co_await g.Lock();
+          } else {
+            (void)g.TryLock();
+          }
+        } else if (r.guard_origin == 2 && r.form == kGuard) {
+          co_await m->Lock();
+          g = yaclib::UniqueGuard<M>{*m, std::adopt_lock};
+        } else {
+          g = r.form == kGuard ? co_await m->Guard() : m->TryGuard();
+        }
         if (!g) {
           r.try_failed = true;
           if (r.form == kGuard) {
@@ -305,7 +322,20 @@ yaclib::Future<> Worker(Case* c, M* m, int w, yaclib::IExecutor* e) {
         }
       } break;
       default: {
-        auto g = r.form == kGuardShared ? co_await m->GuardShared() : m->TryGuardShared();
+        yaclib::SharedGuard<M> g;
+        if (r.guard_origin == 1) {
+          g = yaclib::SharedGuard<M>{*m, std::defer_lock};
+          if (r.form == kGuardShared) {
+            co_await g.Lock();
+          } else {
+            (void)g.TryLock();
+          }
+        } else if (r.guard_origin == 2 && r.form == kGuardShared) {
+          co_await m->LockShared();
+          g = yaclib::SharedGuard<M>{*m, std::adopt_lock};
+        } else {
+          g = r.form == kGuardShared ? co_await m->GuardShared() : m->TryGuardShared();
+        }
         if (!g) {
           r.try_failed = true;
           if (r.form == kGuardShared) {
